@@ -81,7 +81,10 @@ def to_symbolic_model(model: Model) -> SymbolicModel:
     symbols: dict[str, sympy.Symbol | sympy.Expr] = variables | parameters | data  # type: ignore
 
     # Insert derived into symbols
-    for k, v in model.get_raw_derived().items():
+    raw_derived = model.get_raw_derived()
+    for k in cache.order:  # dependency order, not declaration order
+        if (v := raw_derived.get(k)) is None:
+            continue
         if (
             expr := fn_to_sympy(v.fn, origin=k, model_args=[symbols[i] for i in v.args])
         ) is None:
